@@ -110,8 +110,6 @@ bool prop(Tape &t, Report &R) {
   }
 
   // ---- reference run: refusal inside every callback; K = number of callbacks
-  Circuit ref = s.build();
-  Frame start = snap(ref);
   int K = 0;
   std::string cbErr;
   // At one tape-chosen invocation the callback also snapshots the circuit (a
@@ -119,6 +117,10 @@ bool prop(Tape &t, Report &R) {
   // legalization would: once that call has ended the copy accepts modifications.
   int copyAt = t.choose(0, 7);          // decided last: older tapes decode 0 here
   int copyEnds = t.choose(0, 2);        // 0 returns / infeasible, 1 throwing callback, 2 rejected parameters
+  // a movable cell lower than a row: legalization then fails, and must leave the placement alone
+  if (stage != kGlobal && addShortMovable(s, t.next())) R.classify("cells:movable-cell-lower-than-a-row");
+  Circuit ref = s.build();
+  Frame start = snap(ref);
   bool copied = false;
   PlacementCallback observe = [&](PlacementStep) {
     ++K;
